@@ -241,10 +241,13 @@ def _wrapper_world(kind):
     n_theta = {"constant": 1, "exponential": 1, "skyride": 3, "skygrid": 3, "piecewise_exponential": 1, "linear": 3}[kind]
     thetas = [t64([2.0, 3.0, 1.5][:n_theta]), t64([0.7, 1.2, 4.0][:n_theta]), t64([5.0, 0.4, 2.2][:n_theta]), t64([1.1, 1.1, 0.3][:n_theta])]
     growths = [t64([0.3, -0.5, 0.8]), t64([-0.4, 0.9, 0.2]), t64([1.1, 0.1, -0.7]), t64([0.05, 0.6, 0.6])]
-    grid = t64([0.8, 2.1])
+    grids = [t64([0.8, 2.1]), t64([0.5, 1.4]), t64([1.0, 2.8]), t64([0.3, 3.1])]
 
     def make(idx):
-        idx = idx or (0, 0, 0)
+        idx = idx or (0, 0, 0, 0)
+        idx = tuple(idx) + (0,) * (4 - len(idx))
+        grid = grids[idx[3]]
+        gp = Parameter("grid", grid.clone())
         tm, _ = treemodels.build_timetree(tree, names, tips, heights[idx[0]].clone())
         th = Parameter("theta", thetas[idx[1]].clone())
         params, values = [tm._internal_heights, th], [heights, thetas]
@@ -258,25 +261,34 @@ def _wrapper_world(kind):
         elif kind == "skyride":
             m = co.PiecewiseConstantCoalescentModel("c", th, tm)
         elif kind == "skygrid":
-            m = co.PiecewiseConstantCoalescentGridModel("c", th, Parameter("grid", grid.clone()), tm)
+            m = co.PiecewiseConstantCoalescentGridModel("c", th, gp, tm)
         elif kind == "piecewise_exponential":
             g = Parameter("growth", growths[idx[2]].clone())
-            m = co.PiecewiseExponentialCoalescentGridModel("c", th, g, Parameter("grid", grid.clone()), tm)
+            m = co.PiecewiseExponentialCoalescentGridModel("c", th, g, gp, tm)
             params.append(g)
             values.append(growths)
         else:
-            m = co.PiecewiseLinearCoalescentGridModel("c", th, Parameter("grid", grid.clone()), tm)
-        if len(params) == 2:
-            # explore() indexes every parameter: keep a dummy third slot out
-            pass
+            m = co.PiecewiseLinearCoalescentGridModel("c", th, gp, tm)
+        # index layout for explore(): [heights, theta, (growth), (grid)] -> make() reads idx[0], idx[1], idx[2] (growth), idx[3] (grid)
+        slots = [0, 1] + ([2] if len(params) == 3 else [])
+        if kind in ("skygrid", "piecewise_exponential", "linear"):
+            params.append(gp)
+            values.append(grids)
+            slots.append(3)
         reads = {"node_heights": (lambda: tm.node_heights)}
-        return (lambda: m()), params, reads, values
+        return (lambda: m()), params, reads, values, slots
 
-    def make_padded(idx):
-        if idx is not None and len(idx) < 3:
-            idx = tuple(idx) + (0,) * (3 - len(idx))
-        return make(idx)
-    return make_padded
+    def make_mapped(idx):
+        if idx is None:
+            e, p, r, v, slots = make(None)
+            return e, p, r, v
+        probe = make(None)[4]
+        full = [0, 0, 0, 0]
+        for j, sl in enumerate(probe):
+            full[sl] = idx[j]
+        e, p, r, v, _ = make(tuple(full))
+        return e, p, r, v
+    return make_mapped
 
 
 def ob_wrapper_history(kind, depth):
